@@ -216,6 +216,40 @@ pub fn nodrain_case(i: u64, seed: u64) -> Scenario {
     sc
 }
 
+/// never drained, and the queue is already full (100 interruption notices of a flapping link between two peers that
+/// have completed their handshake) when a third peer - or a spectator - that was not reachable until then starts
+/// its handshake: its progress events must not push the queue over the bound either
+pub fn nodrain_late_case(i: u64, seed: u64) -> Scenario {
+    let spectator = i % 3 == 2;
+    let mut sc = Scenario::basic(mix(seed, i ^ 0xd7a2), if spectator { 2 } else { 3 });
+    if spectator {
+        sc.specs.push(SpecSpec { host: (i / 3 % 2) as u8, max_behind: 10, catchup: 2, slow: 0, window: 8 });
+    }
+    sc.drain = false;
+    sc.sched = (i % 2) as u8;
+    sc.max_pred = 8;
+    sc.link = LinkProfile { loss: 0, dup: 0, lat_min: 5, lat_max: 10 + (i % 4) as u16 * 10 };
+    sc.notify_ms = 100;
+    sc.timeout_ms = 20000;
+    let cycles = 52 + (i % 5) as u32 * 3;
+    for j in 0..cycles {
+        sc.ops.push(Op::Outage { tick: 60 + j * 14, from: 1, to: 2, len_ms: 130 });
+        sc.ops.push(Op::Outage { tick: 60 + j * 14, from: 2, to: 1, len_ms: 130 });
+    }
+    let wake = 60 + cycles * 14 + 10 + (i % 7) as u32;
+    // the late node cannot be reached until `wake`: every packet from and to it is lost
+    let late: u8 = if spectator { 101 } else { 3 };
+    let others: Vec<u8> = if spectator { vec![sc.specs[0].host + 1] } else { vec![1, 2] };
+    for o in others {
+        sc.ops.push(Op::Outage { tick: 0, from: late, to: o, len_ms: wake * 16 });
+        sc.ops.push(Op::Outage { tick: 0, from: o, to: late, len_ms: wake * 16 });
+    }
+    sc.ops.sort_by_key(|o| o.tick());
+    sc.ticks = wake + 150;
+    sc.settle = 60;
+    sc
+}
+
 /// a peer's process is restarted on the same address while the handshake is still going on (once or twice):
 /// the other side has matched 0..4 replies of the old process by then
 pub fn restart_case(i: u64, seed: u64) -> Scenario {
@@ -312,6 +346,9 @@ pub fn run_prop(ctx: &Ctx) -> PropReport {
     rep.part(|| run_enum(ctx, "never_drained",
         "2-3 peers whose user never drains events while interruptions (40 short outages with notify 100 ms), desync reports (interval 1-3, one peer corrupted) and wait recommendations are produced: events().len() <= 100 after every call",
         ctx.tier.pick(24, 96), move |i| nodrain_case(i, seed), eval, false));
+    rep.part(|| run_enum(ctx, "never_drained_late_joiner",
+        "3 peers (or 2 peers and a spectator) whose user never drains events: two peers complete their handshake and fill the queue with the notices of 52-64 short outages between them (notify 100 ms) while the third node is not running yet; it then starts and its handshake progress is reported: events().len() <= 100 after every call; non-trivial = the late node's Synchronized was reported to a session whose queue had reached 100",
+        ctx.tier.pick(90, 360), move |i| nodrain_late_case(i, seed), |sc| { let mut r = eval(sc); r.nontrivial = r.counters.iter().any(|c| c.0 == "max_undrained_events" && c.1 >= 100); r }, false));
     rep.part(|| run_enum(ctx, "restart_during_handshake",
         "enumeration: one of two peers (sometimes hosting a spectator) is restarted on the same address - a new session object with a new magic number - at tick 1..=40 of the handshake (and possibly a second time 3-13 ticks later) x latency {0,20,60,110 ms} x three timeout settings x window {8,0,2}, loss-free; the restart is only carried out while no other node has reported that address Synchronized; oracle: grammar, nonce ledger, Running iff all synchronized, exact timing prediction (no NetworkInterrupted / Disconnected on a healthy link), and everybody advances at the end; non-trivial = a restart was carried out",
         NRESTART, move |i| restart_case(i, seed), eval_restart, true));
